@@ -737,8 +737,10 @@ fn run_case(case: &Value, dir: &Path) -> Problems {
                     libc::munmap(ml, a as usize);
                 }
             }
-            "waitid" => {
-                // Needs child processes; covered by the repository's own tests.
+            "waitid" | "read_pool" | "recv_pool" | "read_multishot" | "recv_multishot" | "pipe" | "to_direct" | "to_file" => {
+                // waitid needs child processes (covered by the repository's own tests); buffer
+                // selection has no system call counterpart (C08 / C15); pipes and descriptor
+                // conversions are used by every other case of this file.
             }
             other => out.push(json!({"field": "operation unknown to the replayer", "expected": other, "observed": null})),
         }
